@@ -64,6 +64,28 @@ def table_worker(task):
                     continue
                 if x.si != v * f or float(x) != v * f:
                     bad.append(("si-value", name, u, v, x.si, v * f))
+                # the same quantity with the unit given by keyword
+                try:
+                    xk = q(v, unit=u)
+                    if xk.si != x.si or xk.unit != u or \
+                            not (xk.displayvalue == x.displayvalue
+                                 or x.displayvalue != x.displayvalue):
+                        bad.append(("unit-given-by-keyword", name, u, v,
+                                    xk.si, xk.unit))
+                except Exception as ex:  # noqa
+                    bad.append(("unit-given-by-keyword-raised", name, u,
+                                type(ex).__name__))
+                # a copy made through the constructor leaves the original
+                # alone (its unit in particular) and has the same SI value
+                try:
+                    cp = q(x)
+                    if x.unit != u or x.si != v * f or float(cp) != x.si \
+                            or type(cp) is not q:
+                        bad.append(("copy-construction", name, u, v, x.unit,
+                                    float(cp)))
+                except Exception as ex:  # noqa
+                    bad.append(("copy-construction-raised", name, u,
+                                type(ex).__name__))
                 if x.unit != u:
                     bad.append(("unit", name, u, x.unit))
                 dv = x.displayvalue
